@@ -18,7 +18,7 @@
   Every theorem below is about the executions these guards permit; the lock-step replay
   (lean/Drivers/C17.lean) reports a divergence whenever the real code takes a step the guards forbid.
 -/
-import Babylon.Pages.Pool
+import Babylon.Pages.Count
 import Babylon.Pages.Sched
 
 namespace Babylon.Properties.C17
@@ -149,6 +149,38 @@ theorem pages_conserved (c : Cfg) (s : State) (h : Reach c s) (hq : Quiescent c 
   rw [thToks_quiescent (reach_idleEmpty h) hq] at h1
   simp only [List.length_nil] at h1
   omega
+
+/-! ## Counting allocator, PageHeap, batch allocator -/
+
+/-- **counting_exact.**  For a page-allocator stack with a counting layer (`CountingPageAllocator` in front of
+the cache: counter updated before forwarding; `PageHeap`: after), at every quiescent point the counter equals
+the number of pages that are above the cache layer — with callers or prefetched in thread buffers —, hence
+`allocated_page_num() = max(0, counter)` is exactly that number.  (Between quiescent points the counter is
+off by the calls in progress: `reach_cntInv`.) -/
+theorem counting_exact (c : Cfg) (s : State) (hm : c.mode = Mode.pages) (hcnt : c.count ≠ CountMode.off)
+    (hcap : 0 < c.cap) (h : Reach c s) (hq : Quiescent c s) :
+    s.counter = (s.held.length : Int) + s.bufs.flatten.length ∧
+    s.counter.toNat = s.held.length + s.bufs.flatten.length := by
+  have hi := reach_cntInv hm hcnt hcap h
+  unfold CntInv at hi
+  rw [adjSum_quiescent (reach_idleEmpty h) hq] at hi
+  refine ⟨by omega, by omega⟩
+
+/-- the bookkeeping behind it: `CachedPageAllocator::allocate(pages, n)` fills its page array segment by segment
+(`min(n, capacity)` pages through the queue, the rest from upstream); the invariant `LenOK` holds for every
+thread of every reachable state -/
+theorem allocate_length_bookkeeping (c : Cfg) (s : State) (hcap : 0 < c.cap) (h : Reach c s) (t : Tid) :
+    LenOK c (s.th t) := reach_len hcap h t
+
+/-- **batch_dtor_returns_buffers.**  `~BatchPageAllocator`, called (alone: only thread `t` takes steps) with the
+list of thread slots it enumerates covering every non-empty buffer: when it returns, every thread buffer is
+empty — each buffer went through `_upstream->deallocate` (the moves are token moves, so nothing is lost:
+`pages_conserved_always`). -/
+theorem batch_dtor_returns_buffers (c : Cfg) (s s1 s2 : State) (t : Tid) (order : List Nat)
+    (hcall : callOp c s t (.bdtor order) = some s1)
+    (hord : ∀ u p ps, s.bufs[u]? = some (p :: ps) → u ∈ order)
+    (hrun : RunT c t s1 s2) (hret : (s2.th t).pc = .retWait) : s2.bufs.flatten = [] :=
+  bdInv_done (bdInv_run hrun (bdInv_call hcall hord)) hret
 
 /-! ## Object pool -/
 
